@@ -13,6 +13,7 @@ mod mutimg;
 mod partition;
 mod race;
 mod seq;
+mod sweepsched;
 mod term;
 mod util;
 
@@ -36,6 +37,8 @@ fn main() {
         "race" => race::run(&opts),
         "scan" => race::run_scan(&opts),
         "sweep" => race::run_sweep(&opts),
+        "sweepsched" => sweepsched::run(&opts),
+        "sweepschedchild" => sweepsched::child(&opts),
         "term" => term::run(&opts),
         "termchild" => term::termchild(&opts),
         "inflight" => inflight::run(&opts),
